@@ -194,13 +194,14 @@ def subFuel (sv : Int) : Nat := (2 * sv + 3).toNat
 
 /-- `get_subtraction_value(…)` for the versions 2, 3, 6, 7, 8 (any other number: the model returns the
 flag `false`).  `l = levelvec[d]`, `ml = max_level`, `mcs = max_coarsenings`.  `v3r` is the rounding of
-version 3 (the code does it in floats; `v3Exact` is its exact reading). -/
+version 3 (the code does it in floats; `v3Exact` is its exact reading); version 3 clips the result at
+`levelvec[d] - lmin[d]` (fix commit 891031b of the repository under test). -/
 def subValue (version dim d : Nat) (v3r : Int → Nat → Nat → Int) (lmin lmaxd : Int) (mcs : List Int)
     (ml : Nat) (l : Int) : Int × Bool :=
   let sv := lmaxd - ml
   match version with
   | 2 => (sv, true)
-  | 3 => (if ml > 2 then v3r sv dim d else sv, true)
+  | 3 => (min (if ml > 2 then v3r sv dim d else sv) (l - lmin), true)
   | 6 => let r := subLoop6 dim d mcs sv (subFuel sv) 0 0; (modifyLv r.1 l lmin lmaxd ml, r.2)
   | 7 => let r := subLoop7 dim mcs sv (subFuel sv) 0 0; (modifyLv r.1 l lmin lmaxd ml, r.2)
   | 8 => let r := subLoop8 dim d mcs sv ml (subFuel sv) 0 0; (modifyLv r.1 l lmin lmaxd ml, r.2)
